@@ -25,11 +25,22 @@ MAX_SAMPLES = 3
 
 
 class CaseTimeout(Exception):
-    pass
+    """the case consumed more than its budget of CPU time (load independent): a verdict for termination properties"""
 
 
-def _alarm(signum, frame):
+class CaseWallTimeout(Exception):
+    """generous wall-clock watchdog: never a verdict, always inconclusive"""
+
+
+def _cpu_alarm(signum, frame):
     raise CaseTimeout()
+
+
+def _wall_alarm(signum, frame):
+    raise CaseWallTimeout()
+
+
+WALL_FACTOR = 10
 
 
 def jsonable(x):
@@ -57,21 +68,28 @@ def case_rng(seed, propnum, idx):
     return np.random.default_rng([int(seed), int(propnum), int(idx)])
 
 
-def run_one(mod, seed, idx, tier, timeout_s):
+def run_one(mod, seed, idx, tier, timeout_s, cpu_budget=True):
     """Run one case; every exception that escapes the check module is itself
     an observation (the check modules catch and classify exceptions of the
     monitored calls; whatever still escapes is either an exception from library
     code in a place where none is expected, or a harness bug -> reported)."""
     rng = case_rng(seed, mod.PROPNUM, idx)
-    old = signal.signal(signal.SIGALRM, _alarm)
-    signal.alarm(int(timeout_s))
+    # the deciding budget is CPU time of this process (ITIMER_PROF: user+system), which does not depend on how loaded the
+    # machine is; the wall-clock alarm is WALL_FACTOR times longer and only ever yields 'inconclusive'
+    old = signal.signal(signal.SIGALRM, _wall_alarm)
+    oldp = signal.signal(signal.SIGPROF, _cpu_alarm)
+    signal.alarm(int(WALL_FACTOR * timeout_s))
+    if cpu_budget:
+        signal.setitimer(signal.ITIMER_PROF, float(timeout_s))
     try:
         rec = mod.run_case(rng, idx, tier)
+    except CaseWallTimeout:
+        rec = {"cls": "timeout", "viol": [], "inconcl": ["case wall-clock watchdog (%ds)" % int(WALL_FACTOR * timeout_s)]}
     except CaseTimeout:
-        rec = {"cls": "timeout", "viol": [] , "inconcl": ["case wall-clock watchdog (%ds)" % timeout_s]}
+        rec = {"cls": "timeout", "viol": [], "inconcl": ["case CPU-time watchdog (%ds)" % timeout_s]}
         if getattr(mod, "TIMEOUT_IS_VIOLATION", False):
             rec["viol"] = [{"key": {"kind": "hang"}, "err": None,
-                            "msg": "case did not finish within %d s (typical: milliseconds)" % timeout_s}]
+                            "msg": "case used more than %d s of CPU time without finishing (typical: milliseconds)" % timeout_s}]
             rec["inconcl"] = []
     except Exception as e:  # noqa: BLE001
         tb = traceback.format_exc(limit=12)
@@ -80,8 +98,10 @@ def run_one(mod, seed, idx, tier, timeout_s):
             "key": {"kind": "uncaught-exception", "exc": type(e).__name__, "in_library": bool(in_lib)},
             "err": None, "msg": "uncaught %s: %s" % (type(e).__name__, str(e)[:300]), "trace": tb[-1500:]}]}
     finally:
+        signal.setitimer(signal.ITIMER_PROF, 0.0)
         signal.alarm(0)
         signal.signal(signal.SIGALRM, old)
+        signal.signal(signal.SIGPROF, oldp)
     return rec
 
 
@@ -109,6 +129,16 @@ def main(argv):
     if setup_err is not None:
         agg["viol"].append(dict(setup_err, idx=-1)); agg["viol_count"] += 1
         idxs = []
+    idxs = list(idxs)
+    if idxs and not explicit:
+        # warm-up: the first case is executed once without a CPU budget and its record discarded, so that the lazily
+        # compiled numba kernels (tens of CPU seconds on a cold cache) are not charged to a timed case; progress index -1
+        # tells the parent that no case is being timed
+        progress.seek(0); progress.write("-1 %.3f      \n" % time.time()); progress.flush()
+        try:
+            run_one(mod, seed, idxs[0], tier, max(timeout_s, 180), cpu_budget=False)
+        except BaseException:  # noqa: BLE001
+            pass
     for idx in idxs:
         progress.seek(0); progress.write("%d %.3f      \n" % (idx, time.time())); progress.flush()
         tc = time.time()
